@@ -9,7 +9,7 @@
    ptype   : (n generic...)                 condition : (name expr ((param ptype)...) (module file?)?)
    model   : (schema (typedef...) ((key condition)...)) *)
 From Verif Require Import Base.Str Base.Sx Base.Outcome Model.Ast Model.Token Model.Lexer Model.Parser
-  Model.Listener Model.Printer Model.Transform.
+  Model.Listener Model.Printer Model.Transform Spec.Expressible Spec.Normalize.
 
 Fixpoint sx_userset (u : userset) : sx :=
   match u with
@@ -202,6 +202,13 @@ Definition sx_rt (r : list rt_step * rt_fail) : sx :=
       | RFPrint k => SL [sx_nat k; SA 1]
       end].
 
+(* op 207: the SPECIFICATION evaluated on a model — per relation: carriable, expressible, normalize *)
+Definition sx_spec_rel (r : str * userset) : sx :=
+  SL [sx_str (fst r); SA (if carriable (snd r) then 1 else 0); SA (if expressible (snd r) then 1 else 0);
+      sx_userset (normalize (snd r))].
+Definition sx_spec_model (m : model) : sx :=
+  sx_list (fun t => SL [sx_str (td_name t); sx_list sx_spec_rel (td_rels t)]) (m_types m).
+
 (* wire ops 200-299: transformer *)
 Definition dispatch_transform (op : N) (args : list sx) : option sx :=
   match op, args with
@@ -212,6 +219,7 @@ Definition dispatch_transform (op : N) (args : list sx) : option sx :=
   | 205, [SA src; m] => option_map (fun m => sx_print_result (print_model (negb (src =? 0)) (json_model m))) (un_model m)
   | 206, [SA via; d] => option_map (fun d => sx_rt (roundtrip 3 0 (negb (via =? 0)) d)) (un_str d)
   | 203, [d] => option_map (fun d => sx_str (prepass d)) (un_str d)
+  | 207, [m] => option_map sx_spec_model (un_model m)
   | 204, [ts] => option_map (fun ts => sx_dsl_result (parse_walk ts)) (un_listof un_tok ts)
   | _, _ => None
   end.
